@@ -1,6 +1,7 @@
 package main
 
 import (
+	"go/ast"
 	"go/token"
 	"fmt"
 	"go/types"
@@ -78,6 +79,95 @@ func (ex *Exec) targets(only string) []*ssa.Function {
 			continue
 		}
 		seen[k] = true
+		out = append(out, f)
+	}
+	return ex.dropContextOnly(out, all)
+}
+
+// dropContextOnly: an UNEXPORTED function whose only obligations under this property are call-site assertions that a
+// transparent schema gave it (it has no contract of its own), that no interface of its package can dispatch to, and that
+// is referred to only by functions which are themselves verified under this property, is not verified on its own: it is
+// executed - assertions included - in the context of each of those callers (a few statements extracted into a new helper
+// keep being checked where they were, with what the caller knows). If such a helper cannot be executed in a caller
+// (size, depth), the run is undecided (engine error), never silently weaker.
+func (ex *Exec) dropContextOnly(fns []*ssa.Function, all map[*ssa.Function]bool) []*ssa.Function {
+	target := map[string]bool{}
+	for _, f := range fns {
+		target[funcKey(f)] = true
+	}
+	refs := map[types.Object][]*ssa.Function{}
+	for g := range all {
+		if len(g.Blocks) == 0 || !isRepoFunc(g) || isBoundMethodWrapper(g) {
+			continue
+		}
+		top := g
+		for top.Parent() != nil {
+			top = top.Parent()
+		}
+		var ops []*ssa.Value
+		for _, b := range g.Blocks {
+			for _, in := range b.Instrs {
+				ops = in.Operands(ops[:0])
+				for _, op := range ops {
+					if op == nil || *op == nil {
+						continue
+					}
+					if f2, ok := (*op).(*ssa.Function); ok && f2.Object() != nil {
+						refs[f2.Object()] = append(refs[f2.Object()], top)
+					}
+				}
+			}
+		}
+	}
+	ex.contextOnly = map[string]bool{}
+	var out []*ssa.Function
+	for _, f := range fns {
+		key := funcKey(f)
+		c := ex.lib.Contracts[key]
+		drop := c != nil && c.Synth && c.Flags["inline"] && f.Object() != nil && !ast.IsExported(f.Name()) && f.Parent() == nil && f.Origin() == nil
+		if drop {
+			for _, cl := range c.Clauses {
+				if !tagActive(cl.Tags, ex.prop) || cl.Kind == "params" || cl.Kind == "local" || cl.Kind == "exempt" {
+					continue
+				}
+				if !cl.Schema || (cl.Kind != "assert" && cl.Kind != "requires") {
+					drop = false
+				}
+			}
+		}
+		if drop && f.Pkg != nil {
+			for _, m := range f.Pkg.Members {
+				if tm, ok := m.(*ssa.Type); ok {
+					if it, ok := tm.Type().Underlying().(*types.Interface); ok {
+						for i := 0; i < it.NumMethods(); i++ {
+							if it.Method(i).Name() == f.Name() {
+								drop = false
+							}
+						}
+					}
+				}
+			}
+		}
+		if drop {
+			n := 0
+			for _, b := range f.Blocks {
+				n += len(b.Instrs)
+			}
+			rs := refs[f.Object()]
+			if n > 500 || len(rs) == 0 {
+				drop = false
+			}
+			for _, r := range rs {
+				if r == f || !target[funcKey(r)] {
+					drop = false
+				}
+			}
+		}
+		if drop {
+			ex.contextOnly[key] = true
+			ex.usedExtern["helper "+shortKey(key)+" (unexported, schema call-site assertions only) is checked in the context of its callers, not on its own"] = true
+			continue
+		}
 		out = append(out, f)
 	}
 	return out
